@@ -77,8 +77,25 @@ class C15(Prop):
     design_ref = "DESIGN.md 4 C15"
     technique = ("Coq proof over an abstract float interface (FloatOps) about hand-written models of Histogram, Matcher/DistributionBuilder "
                  "and RollingSummary; differential correspondence against the real code with the model evaluated on Coq primitive binary64 floats")
-    level_text = "set by the builder report"
-    level_note = ""
+    level_text = ("Theorems (Coq, any FloatOps instance with a transitive <=, all bound lists / sample sequences / batchings): Histogram model — "
+                  "with ascending bounds every bucket equals the number of samples <= its bound after any sequence of record/record_many "
+                  "(C15_bucket_counts), monotone in the bound and in time, every bucket <= count = number of samples, NaN counted in no bucket, "
+                  "any two batchings of the same samples give identical buckets and count (C15_batch_equals_single); the model's outputs satisfy "
+                  "the executable property for all histogram cases (C15_spec_ok_on_model_partial). DistributionBuilder model — the chosen bounds "
+                  "belong to a matching held override of minimal kind (Full < Prefix < Suffix), else global, else summary; type says histogram iff a "
+                  "histogram is built; sanitised prefix/full/proper-suffix matchers match the sanitised name; the pre-fix suffix rule is refuted. "
+                  "RollingSummary model — count covers all adds; a snapshot merges exactly the buckets begun after now-n*dur; a new bucket covers its sample. "
+                  "All three models are tied to /repo by running the real code and the model (on Coq primitive binary64 floats) on the same cases each run, "
+                  "and the executable property (spec_ok: per-bound counts, override choice by a sort-free specification, window bounds must/may and "
+                  "quantile range) is evaluated on every implementation output.")
+    level_note = ("Partial: (a) spec_ok_on_model is proved for histogram cases only; (b) override precedence is proved between kinds, not the "
+                  "pattern order within a kind, and Matcher::matches = Spec.applies is not proved; whole-name suffix soundness not proved; "
+                  "(c) the window clauses (no sample older than the window, every sample newer than now-n*dur+dur, truncate never evicts an "
+                  "unexpired bucket) are NOT proved for all histories - they are checked per case by spec_ok (window_ok); the while loop that "
+                  "finds a new bucket's begin is modelled by its closed form. That Coq's primitive floats satisfy the order hypotheses is not "
+                  "proved (would need FloatAxioms). DDSketch is abstract: only snapshot count and min*(1-eps) <= q <= max*(1+eps), eps = 1.0001e-4, "
+                  "are checked; the sketch's own min()/max() are not compared (sketches-ddsketch 0.3.0 merge ignores non-positive-only sketches "
+                  "when updating min/max).")
     assumptions = ["u64 counters and nanosecond instants do not overflow",
                    "quanta mock clock stands for the real clock",
                    "the theorems are stated for every FloatOps instance whose <= is transitive and in which a value not <= itself (NaN) is <= nothing; "
